@@ -115,9 +115,9 @@ var (
 	pkgs       = []string{"com.acme.web", "com.acme.api", "org.shop"}
 	classStems = []string{"Order", "User", "Book", "Cart", "Item", "Blog", "Stock", "Mail"}
 	// the first nine are the original pool; "" and a path without leading slash are concatenated like any other
-	pathWords  = []string{"/orders", "/users", "/a", "/list", "/{id}", "/items/{id}", "/x/y", "/", "/v1/books", "", "/items/{id}/sub", "/a-b_c.json", "all"}
+	pathWords  = []string{"/orders", "/users", "/a", "/list", "/{id}", "/items/{id}", "/x/y", "/", "/v1/books", "", "/items/{id}/sub", "/a-b_c.json", "all", "/getUser/{userId}", "/files/{name:.+}", "/*", "/caf\u00e9/\u5730\u5740"}
 	baseWords  = []string{"/orders", "/users", "/a", "/list", "/api/v1", "/", "/api/", "v2"}
-	bodyTypes  = []string{"OrderDto", "User", "List<Item>", "Map<String, Item>", "BookRequest", "int[]"}
+	bodyTypes  = []string{"OrderDto", "User", "List<Item>", "Map<String, Item>", "BookRequest", "int[]", "List<? extends Item>", "Map<String, List<Item>>", "Item[][]", "Optional<OrderDto>", "long"}
 	plainTypes = []string{"String", "Long", "int", "HttpServletRequest", "Pageable"}
 	retTypes   = []string{"String", "void", "ResponseEntity<String>", "List<Item>", "int"}
 	verbs      = []string{"GET", "POST", "PUT", "DELETE"}
@@ -453,7 +453,7 @@ func genCase(t *rapid.T) Case {
 
 func genCliCase(t *rapid.T) Case {
 	c := genCase(t)
-	for _, f := range []string{"-c", "-s", "-a", "-r"} {
+	for _, f := range []string{"-c", "-s", "-a", "-r", "again"} {
 		if rarely(t, 2, "flag"+f) {
 			c.Flags = append(c.Flags, f)
 		}
@@ -930,7 +930,37 @@ func scanCLI(dir string, flags []string, prefix string) ([]Entry, string) {
 	if d := diff(wantRows, rows); d != "" {
 		return nil, fmt.Sprintf("%s: the rows of api.csv are not the entries of apis.json%s: %s", shown, map[bool]string{true: " under the prefix " + aggregate, false: ""}[aggregate != ""], d)
 	}
+	first := sorted(toEntries(apis))
+	for _, f := range flags {
+		if f != "again" {
+			continue
+		}
+		// the same command once more in the same working directory, now without -f: the list is read back
+		// from coca_reporter/apis.json and must come out as it went in
+		again := append([]string{"api"}, args[2:]...)
+		if r, err := cli.Run("coca", cwd, nil, again...); err != nil || r.ExitCode != 0 || r.TimedOut {
+			return nil, fmt.Sprintf("%s, then the same without -f: failed: %v exit=%d\n%s%s", shown, err, r.ExitCode, tail(r.Stdout), tail(r.Stderr))
+		}
+		var second []api_domain.RestAPI
+		raw, err := os.ReadFile(filepath.Join(cwd, "coca_reporter", "apis.json"))
+		if err != nil || json.Unmarshal(raw, &second) != nil {
+			return nil, shown + ", then the same without -f: coca_reporter/apis.json is gone or unreadable"
+		}
+		if d := diff(first, sorted(toEntries(second))); d != "" {
+			return nil, fmt.Sprintf("%s, then the same without -f: apis.json changed: %s", shown, d)
+		}
+		csv2, _ := os.ReadFile(filepath.Join(cwd, "coca_reporter", "api.csv"))
+		if sortedLines(string(csv2)) != sortedLines(string(csv)) {
+			return nil, fmt.Sprintf("%s, then the same without -f: api.csv changed:\nfirst\n%s\nsecond\n%s", shown, csv, csv2)
+		}
+	}
 	return toEntries(apis), ""
+}
+
+func sortedLines(s string) string {
+	lines := strings.Split(s, "\n")
+	sort.Strings(lines)
+	return strings.Join(lines, "\n")
 }
 
 // filterClauses: the aggregate filter keeps exactly the entries under the prefix, keeps everything for the
